@@ -65,6 +65,10 @@ def instances(tier):
             out.append({"kind": "api_cmd", "gen": g, "call": call})
         for what in ("heartbeat", "refresh", "error_info") + (("group_poll",) if g == 4 else ()):
             out.append({"kind": "api_internal", "gen": g, "what": what})
+    for g in (4, 5):
+        out.append({"kind": "api_held_fault", "gen": g})
+        out.append({"kind": "inflight_fault", "gen": g, "n": 2})
+        out.append({"kind": "inflight_fault", "gen": g, "n": 3})
     out.append({"kind": "peer_reset", "gen": 4, "retries": 1})
     out.append({"kind": "peer_reset", "gen": 5, "retries": 0})
     return out
@@ -109,6 +113,10 @@ def run(ctx, p):
         return _api_cmd(ctx, p)
     if p["kind"] == "api_internal":
         return _api_internal(ctx, p)
+    if p["kind"] == "api_held_fault":
+        return _api_held_fault(ctx, p)
+    if p["kind"] == "inflight_fault":
+        return _inflight_fault(ctx, p)
     return _peer_reset(ctx, p)
 
 
@@ -479,6 +487,115 @@ def _api_cmd(ctx, p):
         ctx.reach("connected_policy.one_second")
         for lab in ("count_le_1_plus_retries", "never_at_or_after_expiry", "resent_first_on_next_connection", "no_resend_after_success"):
             ctx.reach(lab)
+
+
+def _inflight_fault(ctx, p):
+    """Two or three idempotent commands are in flight at once (their drain() is held up by back-pressure) when the link
+    breaks at a free instant: one fault fails them all. On the next connection each is re-sent once, the oldest first."""
+    g = Gen(p["gen"])
+    S = socket_mod()
+    entry = catalog.catalog(g)[3]
+    n = p["n"]
+    t_break = ctx.real("t_break", 1, 2)
+    with Rig(ctx, g) as rig:
+        rig.net.on_connect = lambda net, k: ("accept", 0 if k == 0 else 0.5)
+        rig.net.on_drain = lambda conn, k: (2.0 if conn.index == 0 else None)      # every drain() on the first connection is held up
+
+        def sender(i):
+            async def go():
+                try:
+                    await rig.sock.send(entry[1](i + 1), S.RetryPolicy(max_retries=2, max_lifetime=30.0))
+                except Exception:  # noqa: BLE001
+                    pass
+            return go
+
+        rig.spawn(rig.sock.open_socket())
+        for i in range(n):
+            rig.loop.vt_call_at(0.5 + 0.125 * i, (lambda i=i: rig.spawn(sender(i)())))
+        rig.loop.vt_call_at(t_break, lambda: rig.net.conns[0].reset())
+        rig.loop.vt_run(12.25)
+        later = [f for c in rig.net.conns[1:] for f in _frames(g, c)]
+        order = [[i for i in range(n) if f[2] == bytes(entry[3](i + 1))] for f in later]
+        flat = [o[0] if o else None for o in order]
+        ctx.observe("resent", flat)
+        ctx.check(flat == list(range(n)), "resent_first_on_next_connection", detail={"in_flight": n, "resent_order": flat, "expected": list(range(n))})
+        ctx.check(not rig.task_failures(), "resent_first_on_next_connection", detail="unhandled exception in a socket task")
+    for lab in expect_labels("quick"):
+        ctx.reach(lab)
+
+
+def _api_held_fault(ctx, p):
+    """A solver-chosen number of idempotent commands (up to the ten the buffer holds) is held over an outage; on the
+    reconnection exactly one write fails (a solver-chosen one among the first writes of the new connection); the link
+    comes back again: no command is lost, each is transmitted successfully exactly once, in acceptance order."""
+    g = Gen(p["gen"])
+    rig, inst = _api_rig(ctx, g)
+    n_held = (1, 2, 9, 10)[ctx.choice("held", 4)]
+    fail_at = ctx.choice("failing_write", 3)            # which drain() on the second connection fails
+    with rig:
+        con = rig.console
+        mode = {"accept": True}
+        rig.net.on_connect = lambda net, n: (("accept", 0) if mode["accept"] else ("refuse",))
+        state = {"drains": 0, "done": False}
+
+        def on_drain(conn, n):
+            if conn.index == 1 and not state["done"]:
+                k = state["drains"]
+                state["drains"] += 1
+                if k == fail_at:
+                    state["done"] = True
+                    return ConnectionResetError("write fault")
+            return None
+
+        rig.net.on_drain = on_drain
+        rig.start()
+        rig.run(1.0)
+        ctx.check(rig.init_result is True, "resent_first_on_next_connection", detail="handshake failed")
+        mode["accept"] = False
+        rig.net.current().reset()
+        rig.run(1.5)
+        zone = rig.zone(0)
+        res = []
+
+        async def cmds():
+            for i in range(n_held):
+                try:
+                    await zone.set_damper_percentage(5 * (i + 1))
+                    res.append("ok")
+                except Exception as e:  # noqa: BLE001
+                    res.append(type(e).__name__)
+
+        rig.spawn(cmds())
+        rig.run(2.0)
+        mode["accept"] = True
+        rig.run(12.0)
+        # successful transmissions: frames whose drain() did not fail = every zone_ctrl frame except the one written just before the fault
+        per_conn = {}
+        for c in rig.net.conns[1:]:
+            fr = framing.parse_stream(g.n, [int(x) for x in c.written()])
+            per_conn[c.index] = [f for f in fr]
+        def pct(f):
+            from ref import at4 as r4
+            from ref import at5 as r5
+            d = [int(b) for b in f["data"]]
+            return r4.group_control(d)["value"] if g.n == 4 else r5.zone_control_record(d[8:12])["value"]
+        def is_zone_ctrl(f):
+            return (f["type"] == 0x2A) if g.n == 4 else (f["type"] == 0xC0 and f["data"][0] == 0x20)
+        seq = {i: [pct(f) for f in fs if is_zone_ctrl(f)] for i, fs in per_conn.items()}
+        # the frame whose drain() failed was not transmitted successfully: it is the fail_at-th frame of the second connection
+        ok_frames = {i: [(pct(f), j) for j, f in enumerate(fs) if is_zone_ctrl(f) and not (i == 1 and j == fail_at)] for i, fs in per_conn.items()}
+        good = [v for i in sorted(ok_frames) for v, _ in ok_frames[i]]
+        detail = {"held": n_held, "failing_write": fail_at, "results": res, "damper_values_per_connection": seq, "successfully_transmitted": good}
+        ctx.observe("seq", seq)
+        want = [5 * (i + 1) for i in range(n_held)]
+        ctx.check(res == ["ok"] * n_held, "resent_first_on_next_connection", detail=detail)
+        ctx.check(sorted(good) == want, "resent_first_on_next_connection", detail=dict(detail, why="a held command was lost (or transmitted successfully twice)"))
+        ctx.check(good == want, "resent_first_on_next_connection", detail=dict(detail, why="not in acceptance order"))
+        allv = [v for i in sorted(seq) for v in seq[i]]
+        ctx.check(len(allv) <= n_held + 1, "count_le_1_plus_retries", detail=dict(detail, why="more repeats than the single failed write explains"))
+        ctx.check(not rig.task_failures(), "resent_first_on_next_connection", detail="unhandled exception")
+    for lab in expect_labels("quick"):
+        ctx.reach(lab)
 
 
 def _api_internal(ctx, p):
